@@ -747,5 +747,13 @@ M("c20-lru-cache-on-split-range", ["C20"], [(CLS, "import re as _re\n", "import 
    (CLS, "    @staticmethod\n    def __split_range(", "    @staticmethod\n    @_functools.lru_cache(maxsize=None)\n    def __split_range(")], rule="R-NOHIDDEN")
 M("benign-exact-memo-on-classifier", ["C20", "C09", "C02"], [(PRE, "    @staticmethod\n    def __infer_type(pattern: str) -> tuple[_Type, bool]:\n",
    "    __memo: dict = {}\n\n    @staticmethod\n    def __infer_type(pattern: str) -> tuple[_Type, bool]:\n        if pattern not in __class__.__memo:\n            __class__.__memo[pattern] = __class__.__infer_type_uncached(pattern)\n        return __class__.__memo[pattern]\n\n    @staticmethod\n    def __infer_type_uncached(pattern: str) -> tuple[_Type, bool]:\n")], expect="silent")
+_EX_OLD = "            return __class__(\n                f\"{self._quantify_conditional_group()}{{{n}}}\",\n                escape=False)\n\n\n    def at_least(self"
+M("c20-memo-of-receiver-method", ["C20"], [(PRE, _EX_OLD,
+   "            if n not in __class__._exact_memo:\n                __class__._exact_memo[n] = self._exact_text(n)\n            return __class__(__class__._exact_memo[n], escape=False)\n\n"
+   "    _exact_memo: dict = {}\n\n    def _exact_text(self, n: int) -> str:\n        return f\"{self._quantify_conditional_group()}{{{n}}}\"\n\n\n    def at_least(self")], rule="R-NOSHARED")
+M("benign-memo-of-static-suffix", ["C20", "C04"], [(PRE, _EX_OLD,
+   "            if n not in __class__._exact_memo:\n                __class__._exact_memo[n] = __class__._exact_suffix(n)\n"
+   "            return __class__(f\"{self._quantify_conditional_group()}{__class__._exact_memo[n]}\", escape=False)\n\n"
+   "    _exact_memo: dict = {}\n\n    @staticmethod\n    def _exact_suffix(n: int) -> str:\n        return \"{\" + str(n) + \"}\"\n\n\n    def at_least(self")], expect="silent")
 M("c20-lossy-memo-on-classifier", ["C20"], [(PRE, "    @staticmethod\n    def __infer_type(pattern: str) -> tuple[_Type, bool]:\n",
    "    __memo: dict = {}\n\n    @staticmethod\n    def __infer_type(pattern: str) -> tuple[_Type, bool]:\n        key = pattern.lower()\n        if key not in __class__.__memo:\n            __class__.__memo[key] = __class__.__infer_type_uncached(pattern)\n        return __class__.__memo[key]\n\n    @staticmethod\n    def __infer_type_uncached(pattern: str) -> tuple[_Type, bool]:\n")], rule="R-NOSHARED")
